@@ -518,7 +518,11 @@ func Main(ck *Check, tier string) int {
 	reportedSig := map[string]bool{}
 	knownPrinted := map[string]bool{}
 	nviol := 0
-	os.MkdirAll(filepath.Join(VerifDir, "replays"), 0o755)
+	replayDir := filepath.Join(VerifDir, "replays")
+	if d := os.Getenv("VERIF_REPLAYS"); d != "" {
+		replayDir = d
+	}
+	os.MkdirAll(replayDir, 0o755)
 	for _, v := range append(crashes, total.Violations...) {
 		if k := isKnown(v); k != nil {
 			if !knownPrinted[v.Signature] {
@@ -560,7 +564,7 @@ func Main(ck *Check, tier string) int {
 		if nviol > 12 {
 			continue
 		}
-		path := filepath.Join(VerifDir, "replays", fmt.Sprintf("%s-%s.json", ck.ID, shortHash(append([]byte(v.Signature), v.Case...))))
+		path := filepath.Join(replayDir, fmt.Sprintf("%s-%s.json", ck.ID, shortHash(append([]byte(v.Signature), v.Case...))))
 		b, _ := json.MarshalIndent(v, "", " ")
 		os.WriteFile(path, b, 0o644)
 		fmt.Printf("VIOLATION property=%s replay=%s\n", v.Property, path)
@@ -609,9 +613,13 @@ func Main(ck *Check, tier string) int {
 		"wall_s":      time.Since(t0).Seconds(),
 		"violations":  nviol,
 	}
-	os.MkdirAll(filepath.Join(VerifDir, "evidence"), 0o755)
+	evDir := filepath.Join(VerifDir, "evidence")
+	if d := os.Getenv("VERIF_EVIDENCE"); d != "" {
+		evDir = d
+	}
+	os.MkdirAll(evDir, 0o755)
 	b, _ := json.MarshalIndent(ev, "", " ")
-	if err := os.WriteFile(filepath.Join(VerifDir, "evidence", ck.ID+".json"), b, 0o644); err != nil {
+	if err := os.WriteFile(filepath.Join(evDir, ck.ID+".json"), b, 0o644); err != nil {
 		fmt.Fprintln(os.Stderr, "cannot write evidence:", err)
 	}
 	fmt.Printf("check %s tier=%s evaluations=%d distinct_nontrivial=%d states=%d transitions=%d outcomes=%d exhaustive=%v violations=%d known=%d wall=%.1fs\n",
